@@ -131,6 +131,41 @@ def judge_device(items, accept, exp_type, exp_v):
     return None
 
 
+def check_device_sequences():
+    """Each delivery of the device is judged on its own: what an earlier delivery
+    left unfinished must not turn a later malformed one into a message."""
+    import mido
+    inp = rtmidi_input()
+    out = []
+    opens = [[0xf0], [0xf0, 1, 2], [0x90, 1], [0xf2, 5], [0xf0, 1, 0xf8]]
+    conts = [[0xf7], [3, 0xf7], [5], [0x41, 0x42], [2, 0xf7, 0x90], [1]]
+    valid = [[0xf8], [0x90, 1, 2], [0xf0, 7, 0xf7]]
+    for a in opens:
+        for mid_ in ([], [0xf8]):
+            for b in conts:
+                seq = [a] + ([mid_] if mid_ else []) + [b] + [valid[(len(a) + len(b)) % 3]]
+                got = []
+                for items in seq:
+                    try:
+                        inp._rt.deliver(items)
+                    except Exception as e:
+                        out.append(('device-callback-raises/%s' % type(e).__name__, {'kind': 'devseq'},
+                                    'callback raised %r for %r in %r' % (e, items, seq)))
+                        break
+                    got.append([list(m.bytes()) for m in inp.iter_pending()])
+                else:
+                    exp = []
+                    for items in seq:
+                        try:
+                            exp.append([list(mido.Message.from_bytes(items).bytes())])
+                        except ValueError:
+                            exp.append([])
+                    if got != exp:
+                        out.append(('device-sequence', {'kind': 'devseq'},
+                                    'deliveries %r produced %r, each judged on its own gives %r' % (seq, got, exp)))
+    return out[:3]
+
+
 def classify(bs):
     if not bs:
         return 'empty'
@@ -170,6 +205,9 @@ def worker(lines):
 
 
 def replay(case):
+    if case.get('kind') == 'devseq':
+        v = check_device_sequences()
+        return v and v[0][2]
     if case.get('kind') == 'full256':
         items = case['bs']
         import mido
@@ -319,3 +357,9 @@ def run(ctx):
         'converse direction (every Encode(m) is accepted) rests on RoundTrip checked in C01',
         'non-integer items are represented by the objects %r' % (NONINT,),
     ]
+    for key, case, msg in check_device_sequences():
+        ctx.violation('from_bytes/' + key, case, msg)
+    ctx.replayed += 60
+    # re-entrancy: two threads inside these functions at once, a switch possible before every statement
+    from .. import conc
+    conc.run_scenarios(ctx, 'C02', 2 if ctx.tier == 'thorough' else 1)
